@@ -180,8 +180,15 @@ Fixpoint Codec_rec_int (r : Codec_rec) (id : N) : option Z :=
   | (i, v) :: r' => if N.eqb i id then match v with FInt z => Some z | _ => None end else Codec_rec_int r' id
   end.
 
-Definition Codec_take (n : nat) (b : list Z) : option (list Z * list Z) :=
-  if (length b <? n)%nat then None else Some (firstn n b, skipn n b).
+(* the first n bytes and the rest, or None when fewer than n are left - one pass over n elements, no [length] *)
+Fixpoint Codec_take (n : nat) (b : list Z) : option (list Z * list Z) :=
+  match n with
+  | O => Some ([], b)
+  | S m => match b with
+           | [] => None
+           | x :: r => match Codec_take m r with Some (h, t) => Some (x :: h, t) | None => None end
+           end
+  end.
 
 Definition Codec_lookup (e : Codec_env) (id : N) : option Codec_value :=
   match find (fun p => N.eqb (fst p) id) e with Some p => Some (snd p) | None => None end.
